@@ -12,6 +12,8 @@ import YadismModel.Model.XS
 import YadismModel.Model.ApplyPdf
 import YadismModel.Model.Serialize
 import YadismModel.Model.Cache
+import YadismModel.Model.KExpr
+import YadismModel.Generated.Kernels
 
 open Yadism Yadism.Proto
 
@@ -268,6 +270,57 @@ def rdCard : RdM Card := do
 def showCard (c : Card) : String :=
   " ".intercalate (c.map fun (k, v) => k ++ "=" ++ showVal v)
 
+def flt : RdM Float := do let r ← rat; pure (KExpr.ratToFloat r)
+
+/-- `keval name z nargs args… nconst {name val}… nparams {name val}… nexts {name nx xs… val}…` -/
+def rdKeval : RdM String := do
+  let name ← tok
+  let zv ← flt
+  let na ← nat
+  let mut args : Array Float := #[]
+  for _ in [0:na] do
+    let a ← flt
+    args := args.push a
+  let nc ← nat
+  let mut cs : List (String × Float) := []
+  for _ in [0:nc] do
+    let n ← tok; let v ← flt
+    cs := (n, v) :: cs
+  let np ← nat
+  let mut ps : List (String × Float) := []
+  for _ in [0:np] do
+    let n ← tok; let v ← flt
+    ps := (n, v) :: ps
+  let ne ← nat
+  let mut es : List (String × List Float × Float) := []
+  for _ in [0:ne] do
+    let n ← tok
+    let nx ← nat
+    let mut xs : List Float := []
+    for _ in [0:nx] do
+      let x ← flt
+      xs := xs ++ [x]
+    let v ← flt
+    es := (n, xs, v) :: es
+  match Yadism.Gen.kernelTable.find? (fun e => e.1 == name) with
+  | none => pure "unknown-kernel"
+  | some (_, e) =>
+    let nan : Float := 0.0 / 0.0
+    let env : KExpr.FEnv := KExpr.FEnv.mk zv args
+      (fun n => ((cs.find? fun c => c.1 == n).map (·.2)).getD nan)
+      (fun n => ((ps.find? fun c => c.1 == n).map (·.2)).getD nan) es
+    match e.evalF env with
+    | some v => pure (toString v.toBits)
+    | none => pure "undefined"
+
+/-- `kinfo name` : size, maxArg, usesZ -/
+def rdKinfo : RdM String := do
+  let name ← tok
+  match Yadism.Gen.kernelTable.find? (fun e => e.1 == name) with
+  | none => pure "unknown-kernel"
+  | some (_, e) =>
+    pure s!"{e.size} {match e.maxArg with | none => "-" | some i => toString i} {showBool e.usesZ}"
+
 def showPMap (w : PMap) : String :=
   " ".intercalate (flavorBasisPids.map fun p => showRat (w p))
 
@@ -343,6 +396,8 @@ def handle (op : String) : RdM String := do
       let mn ← rat; let m2w ← rat; let gf ← rat; let pi ← rat
       let (a, b, c) := xsCoeffs kind y x q2 { projectilePID := pid, mn, m2w, gf, pi }
       pure s!"{showRat a} {showRat b} {showRat c}"
+  | "keval" => rdKeval
+  | "kinfo" => rdKinfo
   | "update" => do   -- compatibility.update: update <theory card> <obs card>
       let t ← rdCard
       let o ← rdCard
